@@ -23,7 +23,7 @@ Fixpoint run5 (c : cfg) (s : state) (ops : list pop) : list string :=
   match ops with
   | [] => [show_step5 "end" s]
   | p :: r =>
-      let (s1, o) := step c s (resolve s p) in
+      let (s1, o) := pstep c s p in
       let s2 := set_chan [] s1 in
       show_step5 (show_out o) s2 :: run5 c s2 r
   end.
@@ -35,7 +35,7 @@ Fixpoint run5s (c : cfg) (s : state) (toks : list string) : list string :=
       if String.eqb tk "S" then show_step5 "S" s :: run5s c s r
       else match op_of_tok tk with
            | Some p =>
-               let (s1, o) := step c s (resolve s (debyte c p)) in
+               let (s1, o) := pstep c s (debyte c p) in
                show_out o :: run5s c (set_chan [] s1) r
            | None => ["badop"]
            end
@@ -73,6 +73,19 @@ Definition writers_expected : list string :=
 Definition clocks_expected : list string :=
   [ "hosttable.go:Now*1+Since*1"; "mactable.go:Since*1"; "session.go:Now*3+cmp*3"; "layer_frame.go:"; "notification.go:" ].
 
+(* the exported fields of Host, MACEntry, Session, NICInfo (reflection), classified:
+     LIBRARY-written, compared in the dumps: Host.Addr MACEntry Online LastSeen Manufacturer *Name; MACEntry.HostList IP4 IP4Offer
+       IP6GUA IP6LLA IsRouter Captured Online LastSeen MAC Manufacturer *Name; Session.C HostTable MACTable;
+     APPLICATION-written, varied as an input of the histories: Host.HuntStage (op H; the library sets it at creation only);
+     never written nor read by the tables code: MACEntry.IP6Offer, MACEntry.Row (a lock), Session.Statistics (counters);
+     CONFIGURATION of the histories: Session.ProbeDeadline OfflineDeadline PurgeDeadline Conn NICInfo; NICInfo.* (cfg token
+       incl. its env field) *)
+Definition exported_expected : list string :=
+  [ "Host:Addr+DHCP4Name+HuntStage+LLMNRName+LastSeen+MACEntry+MDNSName+Manufacturer+NBNSName+Online+SSDPName";
+    "MACEntry:Captured+DHCP4Name+HostList+IP4+IP4Offer+IP6GUA+IP6LLA+IP6Offer+IsRouter+LLMNRName+LastSeen+MAC+MDNSName+Manufacturer+NBNSName+Online+Row+SSDPName";
+    "Session:C+Conn+HostTable+MACTable+NICInfo+OfflineDeadline+ProbeDeadline+PurgeDeadline+Statistics";
+    "NICInfo:HomeLAN4+HostAddr4+HostGUA+HostLLA+IFI+RouterAddr4+RouterGUA+RouterLLA+RouterPrefix" ].
+
 Definition consts_expected : string :=
   "probe=" ++ dec_of_Z default_probe ++ ",offline=" ++ dec_of_Z default_offline ++ ",purge=" ++ dec_of_Z default_purge ++
   ",maxprobe=" ++ dec_of_Z max_probe ++ ",maxoffline=" ++ dec_of_Z max_offline ++ ",maxpurge=" ++ dec_of_Z max_purge ++
@@ -86,6 +99,7 @@ Definition dispatch (kind : string) (args : list string) : string :=
     | [w] => if String.eqb w "writers" then out3 (join ";" writers_expected) "-" "-"
              else if String.eqb w "consts" then out3 consts_expected "-" "-"
              else if String.eqb w "observed" then out3 "unobserved=" "-" "-"   (* every written field is in the dumps *)
+             else if String.eqb w "exported" then out3 (join ";" exported_expected) "-" "-"
              else if String.eqb w "clocks" then out3 (join ";" clocks_expected) "-" "-" else BADARGS
     | _ => BADARGS
     end
